@@ -288,6 +288,9 @@ def run_entry(check: Check, repo: Repo, entry: str, allowed: set[str], rule: str
         if exempt_funcs and site.func in exempt_funcs:
             check.oblige(rule, site.func, f"{site.kind} {site.expr}: {exempt_funcs[site.func]}", True)
             continue
+        if site.kind == "assert" and site.expr in ("state.parser", "self.parser") and parser_is_set(repo):
+            check.oblige(rule, site.func, f"assert {site.expr}: every ParserState the interpreter builds gets the Parser in that field (premise re-checked by role binding)", True)
+            continue
         tri = TRIAGE.get(site.key())
         if tri and tri[0] == "SAFE" and not triage_trusted(repo, site.key()):
             check.defer_error(f"{site.func}: the code it depends on has changed since the site `{site.expr}` ({site.exc}) was triaged SAFE (\"{tri[1][:80]}...\"); the reason has to be re-read against the new code (tools/retriage.py)")
